@@ -211,6 +211,10 @@ class CellCreate(Contract):
             r = 0
             for o, (v0, c0) in zip(objs, before):
                 for c in c0:
+                    if r >= len(mc):
+                        return f"the merged object has {len(mc)} cells, the inputs have more ({case})"
+                    if np.any(np.asarray(mc[r]) >= len(mv)) or np.any(np.asarray(mc[r]) < 0):
+                        return f"merged cell {r} refers to vertex {np.asarray(mc[r]).tolist()} but the merged object only has {len(mv)} vertices ({case})"
                     got = mv[mc[r]]
                     exp = v0[c]
                     if not np.array_equal(got, exp):
